@@ -164,7 +164,8 @@ func c17build(c *Ctx, i int, rng *rand.Rand) {
 		}
 	}
 	// --- Persist under the file-size limit
-	path := c.Scratch.Path("c17p")
+	path, outDir := outPath(c, "c17p")
+	defer os.RemoveAll(outDir)
 	for k, l := range offsetsFor(rng, size, 4096, false) {
 		os.Remove(path)
 		if k%2 == 1 {
@@ -192,11 +193,37 @@ func c17build(c *Ctx, i int, rng *rand.Rand) {
 			c.R.Fail("persist-swallowed", "%s: Persist with the write crossing byte %d of %d failing reported success (file left: %v, %d bytes)", id, l, size, left, len(readFile(path)))
 		case left:
 			c.R.Fail("persist-file-left", "%s: Persist failed at byte %d of %d (%v) but left a file of %d bytes", id, l, size, err, len(readFile(path)))
+		case len(listDir(outDir)) > 0:
+			c.R.Fail("persist-file-left", "%s: Persist failed at byte %d of %d (%v) but left %v in the output directory", id, l, size, err, listDir(outDir))
+			left = true
 		}
 		c.R.Inc("faults_persist", 1)
 		if err == nil || left {
 			break
 		}
+	}
+	os.Remove(path)
+	// --- WriteTo on the re-opened segment, twice: each call streams the whole image
+	// (the CRC field is not compared: a re-opened segment does not know the CRC of its body)
+	os.Remove(path)
+	if err := zx.Persist(seg, path); err == nil {
+		guard(c.R, id+" WriteTo(opened)", func() {
+			o, err := zx.Open(path)
+			if err != nil {
+				c.R.Fail("open-err", "%s: %v", id, err)
+				return
+			}
+			defer o.Close()
+			for k := 0; k < 2; k++ {
+				w := &failWriter{limit: 1 << 40}
+				n, err := writeTo(o, w)
+				if err != nil || int(n) != len(w.buf) || len(w.buf) != size || string(w.buf[:size-4]) != string(ref[:size-4]) {
+					c.R.Fail("writeto-opened", "%s: WriteTo #%d on the re-opened segment: n=%d err=%v streamed %d bytes, want the %d bytes of the image", id, k+1, n, err, len(w.buf), size)
+					break
+				}
+				c.R.Inc("writeto_on_opened_segment", 1)
+			}
+		})
 	}
 	os.Remove(path)
 	// --- no fault / limit beyond the size: success and a complete file
@@ -285,8 +312,8 @@ func c17merge(c *Ctx, i int, rng *rand.Rand) {
 		}
 		ins = append(ins, s)
 	}
-	path := c.Scratch.Path("c17m")
-	defer os.Remove(path)
+	path, outDir := outPath(c, "c17m")
+	defer os.RemoveAll(outDir)
 	bm := zx.Drops(drops, nil)
 	var size uint64
 	var err error
@@ -339,6 +366,9 @@ func c17merge(c *Ctx, i int, rng *rand.Rand) {
 			c.R.Fail("merge-swallowed", "%s: Merge with the write crossing byte %d of %d failing reported success (file left: %v, %d bytes)", id, l, size, left, len(readFile(path)))
 		case left:
 			c.R.Fail("merge-file-left", "%s: Merge failed at byte %d of %d (%v) but left a file of %d bytes", id, l, size, err, len(readFile(path)))
+		case len(listDir(outDir)) > 0:
+			c.R.Fail("merge-file-left", "%s: Merge failed at byte %d of %d (%v) but left %v in the output directory", id, l, size, err, listDir(outDir))
+			left = true
 		}
 		c.R.Inc("faults_merge", 1)
 		if err == nil || left {
